@@ -612,6 +612,104 @@ def s2_options_snapshot(rep: Report) -> None:
         rep.candidate(key, f"{a} with {k} members", {"attribute": a, "members": k}, replay)
 
 
+def s3_indirect_deps(rep: Report) -> None:
+    """State.patch_indirect_dependencies + State.add_dependency from the source rewrite: the modules
+    found by the indirection detector and the module references arrive as sets (NDSet: solver-ranked
+    iteration); the dependency *list* that results -- written to the cache record with its priorities and
+    hashed into dependants -- must be the same for every rank assignment."""
+    global _RW
+    shims = dict(symx.SHIMS)
+    shims["set"] = NDSet
+    shims["frozenset"] = NDFrozenSet
+    _RW = symx._Rewriter(set(shims), set_hook)
+    K = Kernel("mypy.build", ["State.patch_indirect_dependencies", "State.add_dependency"], shims=shims, node_hook=set_hook, closure=False)
+    rep.kernels_from(K)
+    patch = K["State.patch_indirect_dependencies"]
+    add_dep = K["State.add_dependency"]
+    POOL = ["pkg.a", "pkg.b", "other", "zeta"]
+    ctx = Ctx(max_paths=200000)
+    found: dict = {}
+    n = {"p": 0, "multi": 0}
+
+    def run_once(c: "Ctx | None", found_by_types: list, refs: list, existing: list, suppressed: list) -> tuple:
+        class Det:
+            @staticmethod
+            def find_modules(types: Any) -> Any:
+                return NDSet(found_by_types)
+
+        class Mgr:
+            indirection_detector = Det
+            modules = {m: object() for m in POOL if m != "zeta"}  # one found module is not part of the build
+
+        class St:
+            id = "me"
+            ancestors: list = []
+            manager = Mgr
+
+            def add_dependency(self, dep: str) -> None:
+                add_dep(self, dep)
+
+        st = St()
+        st.dependencies = list(existing)
+        st.dependencies_set = set(existing)
+        st.suppressed = list(suppressed)
+        st.suppressed_set = set(suppressed)
+        st.priorities = {}
+        _MODE["ranks"] = {}
+        _MODE["ctx"] = c
+        try:
+            patch(st, NDSet(refs), NDSet([]))
+        finally:
+            _MODE["ctx"] = None
+        return tuple(st.dependencies), tuple(sorted(st.priorities.items())), tuple(st.suppressed)
+
+    def body(c: Ctx) -> None:
+        by_types = [m for m in POOL if bool(c.bool(f"types_mention_{m}"))]
+        refs = [m for m in ("pkg.b", "other") if bool(c.bool(f"module_ref_{m}"))]
+        existing = ["pkg.a"] if bool(c.bool("pkg.a_already_a_dependency")) else []
+        suppressed = ["other"] if bool(c.bool("other_is_suppressed")) else []
+        canon = run_once(None, by_types, refs, existing, suppressed)
+        got = run_once(c, by_types, refs, existing, suppressed)
+        n["p"] += 1
+        n["multi"] += 1 if len(canon[0]) - len(existing) > 1 else 0
+        c.stats["assert_queries"] += 1
+        if got == canon:
+            c.stats["discharged"] += 1
+        else:
+            c.stats["refuted"] += 1
+            found.setdefault("the order of indirect dependencies recorded for a module depends on set iteration order", (by_types, refs, got[0], canon[0]))
+
+    ctx.explore(body)
+    rep.add_ctx("S3 patch_indirect_dependencies under nondeterministic set iteration", ctx, runs=n["p"])
+    rep.twin("S3: several indirect dependencies added in one call", n["multi"] > 0)
+    rep.bounds.append("S3: a pool of 4 module names (one outside the build), any subset found through types, any subset of 2 as module references, one pre-existing and one suppressed dependency optional; every iteration rank assignment")
+    for key, (by_types, refs, got, canon) in found.items():
+        rep.sample({"kernel": "patch_indirect_dependencies", "class": key, "found_through_types": by_types, "module_refs": refs, "got": list(got), "canonical": list(canon)})
+
+        def replay(d: str, by_types: list = by_types, refs: list = refs) -> tuple[bool, str]:
+            script = (
+                "import mypy.build as B\n"
+                f"POOL = {POOL!r}\n"
+                "class Det:\n    @staticmethod\n    def find_modules(types):\n        return set(" + repr(by_types) + ")\n"
+                "class Mgr:\n    indirection_detector = Det\n    modules = {m: object() for m in POOL if m != 'zeta'}\n"
+                "st = B.State.__new__(B.State)\n"
+                "st.id = 'me'; st.ancestors = []; st.manager = Mgr; st.dependencies = []; st.dependencies_set = set(); st.suppressed = []; st.suppressed_set = set(); st.priorities = {}\n"
+                f"B.State.patch_indirect_dependencies(st, set({refs!r}), set())\nprint(st.dependencies)\n"
+            )
+            with open(os.path.join(d, "replay.py"), "w") as f:
+                f.write(script)
+            env = dict(os.environ)
+            env.pop("PYTHONPATH", None)
+            outs = set()
+            for seed in range(48):
+                env["PYTHONHASHSEED"] = str(seed)
+                p = subprocess.run([sys.executable, os.path.join(d, "replay.py")], capture_output=True, text=True, env=env, timeout=120)
+                outs.add(p.stdout.strip() or p.stderr[-200:])
+            return len(outs) > 1, f"{len(outs)} distinct dependency lists over 48 hash seeds: {sorted(outs)[:3]}"
+
+        rep.candidate(key, f"types mention {by_types}, module refs {refs}: {list(got)} vs canonical {list(canon)}", {"types": by_types, "refs": refs}, replay)
+
+
 # --- H2: recursion guards shared by all modules of a build are left as they were found
 def h2_guard_stacks(rep: Report) -> None:
     """constraints.infer_constraints (the real function) on types from a real build: a generic protocol
@@ -735,6 +833,7 @@ def main(args: Any) -> int:
     h1_history(rep)
     s1_best_matches(rep)
     s2_options_snapshot(rep)
+    s3_indirect_deps(rep)
     h2_guard_stacks(rep)
     rep.bounds.append("S1: four candidate pools with case-only variants and equal-ratio ties, every iteration rank assignment; H2: two generic protocol templates x five actual types (NamedTuple, tuple, nominal implementer, generic implementer, non-implementer) x both directions")
     rep.bounds.append("H1: two builds in one process, typeshed VERSIONS table (3 choices) and target version (3 choices) solver-chosen per build; only the known-modules memo and the resets at the top of build.build")
